@@ -31,14 +31,14 @@ class C04(ContCheck):
 
     def gen(self, tier, rng):
         cases = []
-        nrand = 2500 if tier == 'quick' else 60000
+        nrand = 6000 if tier == 'quick' else 100000
         for _ in range(nrand):
             cases += all_classes('vector', contlib.vector_history(rng))
         for _ in range(nrand // 10):
             cases += all_classes('vector', contlib.vector_history(rng, maxops=40, keys=['a', 'b', 'c', 'd', 'e', 'f', 'g']))
-        depth = 4 if tier == 'quick' else 5
+        depth = 5 if tier == 'quick' else 7
         ex = contlib.vector_exhaustive(depth)
-        ex3 = contlib.vector_exhaustive(3 if tier == 'quick' else 4, keys=('a', 'b', 'c'))
+        ex3 = contlib.vector_exhaustive(4 if tier == 'quick' else 5, keys=('a', 'b', 'c'))
         self.exhaustive_note = ('all %d sequences of %d operations insert/remove/find over keys a,b and all %d over a,b,c, on three '
                                 'classes' % (len(ex), depth, len(ex3)))
         for ops in ex + ex3:
